@@ -386,9 +386,14 @@ def digest_trace(script, plan, res):
             if st["k"] == "deliver":
                 # reply = position of the recipient; labels: the COpen part ends where the message rows start
                 code = codes[st["rcpts"].index(u)] if st["rcpts"].index(u) < len(codes) else -1
-                cut = ulabs.index("I messages") if "I messages" in ulabs else len(ulabs)
-                if "COMMIT" in ulabs[:cut]:
-                    cut = ulabs.index("COMMIT") + 1       # end of the default-mailbox transaction of GetUserDB
+                # GetUserDB's part: the schema statements, then (only when the mailbox table was empty)
+                # the default-mailbox transaction BEGIN IMMEDIATE ... COMMIT; everything after that —
+                # incl. the creation of a missing target folder — belongs to the delivery
+                cut = 0
+                while cut < len(ulabs) and ulabs[cut][:2] in ("T ", "X "):
+                    cut += 1
+                if cut < len(ulabs) and ulabs[cut] == "BEGIN IMMEDIATE" and "COMMIT" in ulabs[cut:]:
+                    cut = ulabs.index("COMMIT", cut) + 1
                 has_open = any(uu == u and "COpen" in t for (uu, t) in cops)
                 if "COpen" in optxt:
                     mylabs, code, view = ulabs[:cut], -1, "(mkOV (-3) [] [] [] [])"
@@ -1126,15 +1131,18 @@ def run(chk):
     quick = chk.tier == "quick"
     base = tempfile.mkdtemp(prefix="c07-", dir="/var/tmp")
     try:
-        # ---- 1. corpus witnesses of the listed findings
+        # ---- 1. corpus: crash scenarios are replayed here, trace scenarios join the trace suite
+        corpus_traces = []
         for path in sorted(glob.glob(os.path.join(C.VERIF, "corpus", PID, "*.json"))):
             w = json.load(open(path))
-            if w.get("suite") != "crash":
-                continue
-            crash_suite(chk, w["script"], w["Ks"], base, "corpus")
+            sc_w = [dict(st, set=[tuple(x) for x in st["set"]]) if "set" in st else st for st in w.get("script", [])]
+            if w.get("suite") == "trace":
+                corpus_traces.append(sc_w)
+            elif w.get("suite") == "crash":
+                crash_suite(chk, sc_w, w["Ks"], base, "corpus")
         # ---- 2. statement-trace suite
         n_tr = 24 if quick else 200
-        scripts = [gen_script(rng, rng.randint(8, 16)) for _ in range(n_tr)] + FIXED_CRASH_SCRIPTS
+        scripts = corpus_traces + [gen_script(rng, rng.randint(8, 16)) for _ in range(n_tr)] + FIXED_CRASH_SCRIPTS
         nops = trace_suite(chk, scripts, base=base)
         # ---- 3. crash replay
         crash_scripts = list(FIXED_CRASH_SCRIPTS)
@@ -1198,7 +1206,15 @@ def replay(path):
             shutil.rmtree(base, ignore_errors=True)
         return 0
     if d.get("suite") in ("trace",) and "script" in d:
-        plan = Plan(d["script"])
+        sc = [dict(st, set=[tuple(x) for x in st["set"]]) if "set" in st else st for st in d["script"]]
+        chk = C.Check(PID, "quick", 1)
+        C.pregen_all()
+        C.coq_make()
+        n = trace_suite(chk, [sc], label="replay")
+        print("trace suite on the replayed script: %d operations compared, %d disagreement(s)" % (n, len(chk.violations)))
+        for v in chk.violations:
+            print("  ", v[1][:400])
+        plan = Plan(sc)
         res = C.run_ops(plan.ops)
         for i, st in enumerate(d["script"]):
             first, last = plan.marks[i]
